@@ -60,6 +60,7 @@ type RollScn struct {
 	FaultDir []string   `json:"dir_faults,omitempty"` // C14: readdir | info | remove failures
 	Static   string     `json:"static,omitempty"`     // C19b: file-closed | file-unstarted | console-fails
 	ViaLogger bool      `json:"via_logger,omitempty"` // C14: the sibling pair is built by a RollingFileLogger (separate=true)
+	Touch    bool       `json:"touch,omitempty"`      // C14: an outside party refreshes the modification time of old files during the run
 	ViaAppend bool      `json:"via_append,omitempty"` // C13: every other write is an event handed to Append, stamped by the application's clock (TimeNow hook), not the wall clock
 	Twin     bool       `json:"twin,omitempty"`       // C13: a second live appender object on the same directory and name (odd writers use it)
 	Script   []string   `json:"script,omitempty"`     // C19 grid: sequential script of w | clk | out:<kind> | restore
@@ -115,7 +116,7 @@ func clockEnv(x *Exec, s *RollScn, boundaries *int) {
 	// passes between operations: the environment assumption is that no goroutine is stalled for
 	// longer than MaxAge in the middle of a write, a rotation or a retention sweep.
 	between := func() bool {
-		return s.MaxAge > 1000 || x.Sim.AllTasksLocked(func(t verifsim.Task) bool {
+		return time.Duration(s.MaxAge)*time.Hour > 20*iv || x.Sim.AllTasksLocked(func(t verifsim.Task) bool {
 			return t.State == verifsim.StDone || (!t.Daemon && (t.Site == "" || t.Site == "start" || t.Site == "writer.between"))
 		})
 	}
@@ -890,7 +891,7 @@ func (c14) Decode(raw json.RawMessage) (any, error) {
 	return &s, err
 }
 
-var popForeign = []string{"app-log.%s", "appXlog.%s", "app_log.%s", "app.log.wf.%s", "app.log.audit.%s", "app.log.bak", "app.log.1.gz", "app.log.%s.gz", "app.logx.%s", "other.txt", "app.log", "app.log.2024010100000", "app.log.202401010000000", "app.log.2024010100000x", "xapp.log.%s"}
+var popForeign = []string{"%s", "app-log.%s", "appXlog.%s", "app_log.%s", "app.log.wf.%s", "app.log.audit.%s", "app.log.bak", "app.log.1.gz", "app.log.%s.gz", "app.logx.%s", "other.txt", "app.log", "app.log.2024010100000", "app.log.202401010000000", "app.log.2024010100000x", "xapp.log.%s"}
 
 func (c14) Gen(rt *rapid.T, thorough bool) any {
 	s := genRollBase(rt, thorough, 3)
@@ -936,8 +937,9 @@ func (c14) Gen(rt *rapid.T, thorough bool) any {
 		s.Pop = append(s.Pop, pf)
 	}
 	if rapid.IntRange(0, 4).Draw(rt, "dirfault") == 0 {
-		s.FaultDir = []string{rapid.SampledFrom([]string{"readdir", "info", "remove", "readdir-once", "readdir-once"}).Draw(rt, "dirfault_kind")}
+		s.FaultDir = []string{rapid.SampledFrom([]string{"readdir", "info", "remove", "readdir-once", "readdir-once", "open-once", "open-once"}).Draw(rt, "dirfault_kind")}
 	}
+	s.Touch = rapid.IntRange(0, 3).Draw(rt, "touch") == 0
 	if rapid.IntRange(0, 5).Draw(rt, "dst") == 0 {
 		// a retention window that contains a change of the local UTC offset: MaxAge is in elapsed
 		// hours, whatever the wall clock did in between. The run begins two days after the zone
@@ -976,6 +978,9 @@ func (c14) Run(x *Exec, scn any) {
 		x.FS.SetMtime(p, mtimeOf(pf))
 	}
 	for _, k := range s.FaultDir {
+		if k == "open-once" {
+			continue // installed once the appenders have started
+		}
 		if k == "readdir-once" {
 			// one listing fails, everything afterwards works: the next cleanup has to do the job
 			x.FS.AddFault(&simos.FaultRule{Op: "readdir", Prefix: rollDir, Err: syscall.EMFILE, Count: 1})
@@ -1033,8 +1038,26 @@ func (c14) Run(x *Exec, scn any) {
 			}
 		}
 	}
+	for _, k := range s.FaultDir {
+		if k == "open-once" {
+			// the creation of one of the next files fails (descriptor table full): no file may be lost over it
+			x.FS.AddFault(&simos.FaultRule{Op: "open", Prefix: rollDir, Err: syscall.EMFILE, Skip: int(s.Knobs.MapSeed % 3), Count: 1})
+		}
+	}
 	boundaries := 0
 	clockEnv(x, s, &boundaries)
+	// somebody else touches one of the old files (appends a line, restores it from a backup):
+	// from then on it is as young as its new modification time
+	touched := map[string]time.Time{}
+	touches := 0
+	x.Sim.AddEnv(&verifsim.EnvAction{Name: "touch", Enabled: func() bool { return s.Touch && touches < 2 && len(s.Pop) > 0 }, Run: func() {
+		pf := s.Pop[(int(s.Knobs.MapSeed)+touches)%len(s.Pop)]
+		touches++
+		if !pf.Dir && x.FS.SetMtime(rollDir+"/"+pf.Name, verifsim.Now()) {
+			touched[pf.Name] = verifsim.Now()
+			x.Sim.Probe("old_file_touched")
+		}
+	}})
 	var writes []*rollWrite
 	for w := range s.Writers {
 		x.Sim.Spawn(fmt.Sprintf("writer%d", w), func() {
@@ -1059,6 +1082,15 @@ func (c14) Run(x *Exec, scn any) {
 	res := x.Sim.Run(nil)
 	if len(x.clientsStuck()) > 0 || res.StepCap {
 		o.violate("blocked", "C14/blocked", "run did not finish: %+v", res)
+	}
+	// the file the appender is writing to right now is never a candidate, whatever failed before:
+	// a line written at this point (no boundary in between) must be readable from the directory
+	if !s.ViaLogger {
+		probe := fmt.Sprintf("<probe-current-%d>\n", len(writes))
+		x.do("probe-writer", func() { call(func() { write(probe) }) })
+		if _, n := locate(x.FS.AllFiles(), probe); n != 1 && len(x.FS.FailedWriteSet()) == 0 {
+			o.violate("current-file-deleted", "C14/current-file-deleted", "a line written after the run (no boundary crossed since the last write) is in no file of the directory: the file being written was removed (dir faults %v, maxAge %dh)", s.FaultDir, s.MaxAge)
+		}
 	}
 	// one more rotation after all clock decisions: its cleanup is the one that settles the directory
 	x.Sim.Advance(iv)
@@ -1095,7 +1127,14 @@ func (c14) Run(x *Exec, scn any) {
 		// (never in the logger-built variant, where it stays idle)
 		own := !pf.Dir && (ownRe.MatchString(pf.Name) || (s.Separate && !s.ViaLogger && ownWfRe.MatchString(pf.Name)))
 		mt := mtimeOf(pf)
-		mustGo := own && mt.Before(tLastRot.Add(-maxAge))          // older than the cut-off of the last cleanup, whenever it ran
+		tt, wasTouched := touched[pf.Name]
+		if wasTouched {
+			if mt.Before(tt.Add(-maxAge)) {
+				continue // already expired when it was touched: a sweep that had looked at it just before may still remove it
+			}
+			mt = tt // young before, younger now
+		}
+		mustGo := own && !wasTouched && mt.Before(tLastRot.Add(-maxAge)) // older than the cut-off of the last cleanup, whenever it ran
 		mustStay := !own || !mt.Before(tEnd.Add(-maxAge))           // not an own file, or still young when the run ended
 		if mustGo {
 			expiredOwn++
